@@ -40,7 +40,7 @@ def _g(o, name, default=None):
 def snapshot(c, full=True):
     """Observable state.  full=True adds what refusal-atomicity must preserve exactly (log, ranking order, public
     flags, to_matrix).  Attributes are read defensively so a renamed internal is not a harness error."""
-    js = sorted(c.jumpers, key=lambda j: j.bib)
+    js = sorted(c.jumpers, key=lambda j: str(j.bib))
     per = tuple((j.bib, tuple(j.attempts_by_height) if full else strip(j.attempts_by_height), str(j.highest_cleared),
                  j.place, _g(j, 'eliminated'), _g(j, 'dismissed'), _g(j, 'round_lim'), _g(j, 'consecutive_failures'))
                 for j in js)
@@ -68,7 +68,7 @@ def _simple(v):
 def dedup_key(c):
     """State identity for BFS de-duplication: every attribute of the competition and its athletes (generic over
     attribute names; the action log is left out - it grows with every call and never influences behaviour)."""
-    js = sorted(c.jumpers, key=lambda j: j.bib)
+    js = sorted(c.jumpers, key=lambda j: str(j.bib))
     comp = tuple(sorted((k, _simple(v)) for k, v in vars(c).items() if k not in ('actions', 'jumpers_by_bib', 'jumpers')))
     return (comp, tuple(tuple(sorted((k, _simple(v)) for k, v in vars(j).items())) for j in js))
 
